@@ -497,10 +497,7 @@ func c10BytesProp(t *rapid.T, st *vstats.Collector) {
 		labels = append(labels, "accepted")
 		if len(in.expectKept) > 0 {
 			m1, _, _ := c10Read(t, nil, in.b)
-			_, pure := m1.(PureTLVMessage)
-			_, hasExtra := c10ExtraField(m1)
-			if pure || hasExtra {
-				c10UnknownPreserved(t, st, m1, in.expectKept, b1)
+			if c10UnknownPreserved(t, st, m1, in.b, in.expectKept, b1) {
 				labels = append(labels, "unknown-kept-checked")
 			}
 		}
